@@ -8,4 +8,5 @@ CONSTANTS Tables = {"a", "b"}
           MaxCrashes = 1
           TailBeyondSync = TRUE
 INVARIANTS FailsOnlyKnown Aligned ReadableCorrect Durable Monotone IndexOK
+VIEW View
 CHECK_DEADLOCK FALSE
